@@ -28,6 +28,8 @@ type Rig struct {
 	EndM   *rig.UnixL
 	Conf   pfcpiface.Conf
 	Base   map[string]int // pool occupancy right after start-up (hook)
+	// LimboTEID: per session index, TEIDs the UP function chose for PDRs that an Update PDR has moved elsewhere
+	LimboTEID map[int]int
 }
 
 var (
@@ -72,7 +74,7 @@ type RigOpts struct {
 // newRig starts a fresh datapath server and a fresh in-process agent.
 func newRig(o RigOpts) (*Rig, error) {
 	n4, hp := nextAddr()
-	r := &Rig{}
+	r := &Rig{LimboTEID: map[int]int{}}
 	var conf pfcpiface.Conf
 	if o.UP4 {
 		var ms, cs int64
